@@ -1473,8 +1473,25 @@ def sum_atom(axes, term_fn, integer=False):
         CTX.facts.append(c >= 0)
     elif eng.entails(z3.Implies(R, t <= 0)):
         CTX.facts.append(c <= 0)
+    # R3': monotonicity against sums over the same domain at the same outer indices (0 <= t <= t2 pointwise
+    # gives c <= c2): needed e.g. for "number of members below the threshold <= number of valid members"
+    if at.nonneg:
+        mine = _free_index_ids(ts)
+        for other in CTX.atoms:
+            if other.kind != "sum" or not other.nonneg or not _same_domains(other.axes, at.axes):
+                continue
+            t2 = toz(other.fn(idx), "int" if other.extra else "real")
+            if _free_index_ids(z3.simplify(t2)) - {i.get_id() for i in idx} != mine - {i.get_id() for i in idx}:
+                continue
+            a1 = z3.ToReal(t) if z3.is_int(t) else t
+            a2 = z3.ToReal(t2) if z3.is_int(t2) else t2
+            c1 = z3.ToReal(c) if z3.is_int(c) else c
+            c2 = z3.ToReal(other.const) if z3.is_int(other.const) else other.const
+            if eng.entails(z3.Implies(R, a1 <= a2), timeout_ms=1000):
+                CTX.facts.append(c1 <= c2)
+            elif eng.entails(z3.Implies(R, a2 <= a1), timeout_ms=1000):
+                CTX.facts.append(c2 <= c1)
     CTX.atoms.append(at)
-    # R1 linearity against existing atoms is established lazily by link_atoms() at proof time
     return c
 
 
@@ -1521,6 +1538,22 @@ def pointwise_equal(eng, R, t, t2):
     if _pure_arith(n1) and _pure_arith(n2):
         return False        # different polynomials: treated as different (precision only)
     return eng.entails(z3.Implies(R, t == t2), timeout_ms=CONGRUENCE_TIMEOUT_MS)
+
+
+def _free_index_ids(term):
+    """ids of the generic-index constants (those with a registered range) occurring in term"""
+    out = set()
+    seen = set()
+    stack = [term]
+    while stack:
+        t = stack.pop()
+        if t.get_id() in seen:
+            continue
+        seen.add(t.get_id())
+        if t.get_id() in CTX.ranges:
+            out.add(t.get_id())
+        stack.extend(t.children())
+    return out
 
 
 def _mentions(term, idx):
@@ -1645,11 +1678,42 @@ def _elem_num(e):
     return SNum.lift(_numof(e))
 
 
+def along_axis(a, axis, fn):
+    """reduction along one axis: element `outer` of the result is fn(the 1-d sub-array of a at `outer`),
+    evaluated lazily for the index terms at which the result is read (plain atoms whose summands mention
+    those index terms; congruence unifies equal ones)"""
+    nd = len(a.axes)
+    if a.flat and nd > 1:
+        raise Unsupported("axis reduction of a flattened array")
+    if axis < 0:
+        axis += nd
+    if not (0 <= axis < nd):
+        raise Unsupported("axis %r out of range" % (axis,))
+    inner = a.axes[axis]
+    outer_axes = a.axes[:axis] + a.axes[axis + 1:]
+    g, sel, msk = a._snapshot(), a.sel, a.mask
+    dtype = a.dtype
+    memo = {}
+
+    def full(outer, j):
+        return tuple(outer[:axis]) + (j[0],) + tuple(outer[axis:])
+
+    def get(outer):
+        key = tuple(i.get_id() for i in outer)
+        if key not in memo:
+            sub = SArr((inner,), lambda j: g(full(outer, j)), dtype,
+                       (lambda j: sel(full(outer, j))) if sel is not None else None,
+                       (lambda j: msk(full(outer, j))) if msk is not None else None)
+            memo[key] = fn(sub)
+        return memo[key]
+    return SArr(outer_axes, get, "float")
+
+
 def arr_sum(a, axis=None, skip_nan=False, masked=None):
     """np.sum / np.nansum / np.ma.sum (masked=True): extended-real sum of the selected elements.
     Result kind: NAN if some (unskipped) element is NaN, +-inf by the usual rules, else FIN."""
     if axis is not None:
-        raise Unsupported("sum along an axis")
+        return along_axis(a, axis, lambda sub: arr_sum(sub, None, skip_nan, masked))
     g = a._snapshot()
     sel, msk = a.sel, a.mask
     use_mask = msk is not None
@@ -1725,7 +1789,7 @@ def arr_count(a, skip_nan=False):
 def arr_mean(a, axis=None, skip_nan=False):
     """np.mean (np.ma.mean for masked arrays) / np.nanmean: sum / count, NaN for an empty selection"""
     if axis is not None:
-        raise Unsupported("mean along an axis")
+        return along_axis(a, axis, lambda sub: arr_mean(sub, None, skip_nan))
     s = arr_sum(a, skip_nan=skip_nan)
     n = arr_count(a, skip_nan=skip_nan)
     r = num_div(s, SNum(FIN, n.v, is_int=True, is_numpy=True))
